@@ -19,7 +19,7 @@ import (
 	"verifharness/corr"
 )
 
-// Thorough tier: messages through the real HTTP tunnel and the real WebSocket tunnel between a
+// Both tiers (a few runs in quick, many in thorough): messages through the real HTTP tunnel and the real WebSocket tunnel between a
 // client-side tunnel (newClientTunnelHTTP / newClientTunnelWebSocket, exposed by the verif hook)
 // and a real gortsplib.Server on loopback.  Client → server: requests, base64-encoded one padded
 // block per write (HTTP) or one binary message per write (WebSocket), observed by the server's
@@ -329,8 +329,16 @@ func (g *gen) e2eClientOnce(kind string, addr string, h *e2eHandler, last bool) 
 	var mu sync.Mutex
 	cl := &gortsplib.Client{
 		Scheme: "rtsp", Host: addr,
-		OnRequest:  func(r *base.Request) { mu.Lock(); creq = append(creq, string(r.Method)+" "+r.Header["CSeq"][0]); mu.Unlock() },
-		OnResponse: func(r *base.Response) { mu.Lock(); cres = append(cres, fmt.Sprint(int(r.StatusCode))+" "+fmt.Sprint(r.Header["CSeq"])); mu.Unlock() },
+		OnRequest: func(r *base.Request) {
+			mu.Lock()
+			creq = append(creq, string(r.Method)+" "+r.Header["CSeq"][0])
+			mu.Unlock()
+		},
+		OnResponse: func(r *base.Response) {
+			mu.Lock()
+			cres = append(cres, fmt.Sprint(int(r.StatusCode))+" "+fmt.Sprint(r.Header["CSeq"]))
+			mu.Unlock()
+		},
 	}
 	if kind == "http" {
 		cl.Tunnel = gortsplib.TunnelHTTP
